@@ -180,6 +180,25 @@ class BuildDirs:
                 prev_parent = parent
                 parent = os.path.dirname(parent)
 
+    def error_making_dirs(self, created_dirs):
+        """Handle an exception after physically creating ``created_dirs``.
+
+        The directories were created in the real file system, but no
+        file was reserved in them. Regard them as virtually removed, and
+        have them physically removed at the end of the build if empty.
+
+        Arguments:
+            created_dirs (list<str>): The non-norm-cased directories.
+        """
+        with self._lock:
+            for dir_ in created_dirs:
+                norm_cased_dir = os.path.normcase(dir_)
+                if norm_cased_dir not in self._build_dir_counts:
+                    self._error_created_dirs.add(norm_cased_dir)
+                    self._maybe_removed_dirs.add(norm_cased_dir)
+            if created_dirs:
+                self._exists_dirs.clear()
+
     def created_dirs(self):
         """Return the directories virtually created during the current build.
 
